@@ -9,6 +9,7 @@ package c17
 //            committed state is taken through the SDK snapshot manager (what a node serves to its peers) and restored,
 //            chunk by chunk, into a fresh application on an empty database (what a joining node does); the new node has
 //            nothing but the snapshot — no process memory, no pruned-but-still-cached versions, no transient leftovers;
+//   restart-histq / histq  reads at OLDER heights (after a restart before every block / on a long-running node): histq_test.go;
 //   sim      between blocks the instance serves what a node serves besides block execution: CheckTx of the coming
 //            transactions (also of the block after, where they mostly fail), tx simulations, the injected messages on a
 //            discarded branch, gRPC queries — all of which may fill process memory but never consensus state.
@@ -60,6 +61,7 @@ type node struct {
 	name    string
 	stats   map[string]int
 	syncs   int
+	exports []string // genesis export / import observations (export_test.go)
 }
 
 func openDB(backend, dir, name string) (dbm.DB, error) {
@@ -295,8 +297,12 @@ func (n *node) dryInject(in detx.Inject, b detx.Block) {
 }
 
 // queries: a handful of gRPC queries against the committed state through the real query router.
-func (n *node) queries(rng *rand.Rand) {
-	if n.c.Height < 1 {
+func (n *node) queries(rng *rand.Rand) { n.queriesAt(n.c.Height, rng) }
+
+// queriesAt: the same queries against the state committed at height `at` (the latest one or an OLDER one: what an
+// explorer / indexer asks with x-cosmos-block-height).
+func (n *node) queriesAt(at int64, rng *rand.Rand) {
+	if n.c.Height < 1 || at < 1 || at > n.c.Height {
 		return
 	}
 	cdc := n.c.App.AppCodec()
@@ -305,7 +311,7 @@ func (n *node) queries(rng *rand.Rand) {
 		if err != nil {
 			return nil
 		}
-		res, err := n.c.App.Query(nil, &abci.RequestQuery{Path: path, Data: bz, Height: n.c.Height})
+		res, err := n.c.App.Query(nil, &abci.RequestQuery{Path: path, Data: bz, Height: at})
 		if err != nil || res == nil || res.Code != 0 {
 			n.stats["query:err"]++
 			if os.Getenv("VERIF_C17_DEBUG") != "" {
@@ -346,7 +352,7 @@ func (n *node) queries(rng *rand.Rand) {
 		}
 	}
 	// keeper-level reads on a query context, as the JSON-RPC / precompile view calls do
-	ctx, err := n.c.App.CreateQueryContext(n.c.Height, false)
+	ctx, err := n.c.App.CreateQueryContext(at, false)
 	if err == nil {
 		ctx, _ = ctx.CacheContext()
 		k := n.c.App.EthKeeper
@@ -432,6 +438,21 @@ func obsLine(o detx.Obs) string {
 
 // replayMode executes a history on a fresh node in the given mode and returns the observation lines.
 func replayMode(h *detx.History, mode, backend, dir string, rseed int64) ([]string, map[string]int, error) {
+	lines, _, st, err := replayModeX(h, mode, backend, dir, rseed, false)
+	return lines, st, err
+}
+
+// replayModeX: with export, the replica also exports its genesis after the blocks of exportNotes and starts a fresh chain
+// from one of the exports (export_test.go); these observations are returned separately (the generator's own execution has none).
+func replayModeX(h *detx.History, mode, backend, dir string, rseed int64, export bool) ([]string, []string, map[string]int, error) {
+	lines, n, err := replayNode(h, mode, backend, dir, rseed, export)
+	if n == nil {
+		return lines, nil, nil, err
+	}
+	return lines, n.exports, n.stats, err
+}
+
+func replayNode(h *detx.History, mode, backend, dir string, rseed int64, export bool) ([]string, *node, error) {
 	n, err := newNode(h.Genesis, backend, dir, strings.HasPrefix(mode, "statesync"))
 	if err != nil {
 		return nil, nil, err
@@ -442,12 +463,12 @@ func replayMode(h *detx.History, mode, backend, dir string, rseed int64) ([]stri
 		switch mode {
 		case "restart-all":
 			if err = n.restart(); err != nil {
-				return lines, n.stats, err
+				return lines, n, err
 			}
 		case "restart":
 			if rng.Intn(3) == 0 {
 				if err = n.restart(); err != nil {
-					return lines, n.stats, err
+					return lines, n, err
 				}
 			}
 		case "sim":
@@ -459,13 +480,25 @@ func replayMode(h *detx.History, mode, backend, dir string, rseed int64) ([]stri
 		case "statesync", "statesync-all":
 			if mode == "statesync-all" || i == 1 || rng.Intn(4) == 0 {
 				if err = n.stateSync(); err != nil {
-					return lines, n.stats, err
+					return lines, n, err
 				}
+			}
+		case "restart-histq":
+			if err = n.restart(); err != nil {
+				return lines, n, err
+			}
+			n.historical(rng)
+		case "histq":
+			if rng.Intn(2) == 0 {
+				n.historical(rng)
 			}
 		case "sim-restart":
 			if rng.Intn(4) == 0 {
 				if err = n.restart(); err != nil {
-					return lines, n.stats, err
+					return lines, n, err
+				}
+				if rng.Intn(2) == 0 {
+					n.historical(rng)
 				}
 			}
 			if rng.Intn(2) == 0 {
@@ -478,6 +511,9 @@ func replayMode(h *detx.History, mode, backend, dir string, rseed int64) ([]stri
 		}
 		o := runBlock(n.c, b)
 		lines = append(lines, blockLine(n.c, o))
+		if export {
+			n.exports = append(n.exports, n.afterBlock(b)...)
+		}
 	}
-	return lines, n.stats, nil
+	return lines, n, nil
 }
